@@ -16,15 +16,17 @@ SPEC = dict(
                 "reading is the model) equal FreeType's 64-bit arithmetic on the wrap-free domain (no intermediate i32 result wraps), which "
                 "contains |d| <= 2^31-128 for the grid modes, all state components <= 2^28 for Super/Super45, and every mul_div_no_round "
                 "triple without i32::MIN whose quotient fits; beyond it they diverge (refuted witnesses at the i32 limits, replayed on the "
-                "real kernels); TT_MulFix14 equal for all "
+                "real kernels); the MIAP[1] control-value cut-in decision equal whenever cvt - position is an i32 (tied through drawn outlines of the synthetic font on both interpreters); TT_MulFix14 equal for all "
                 "operands; F26Dot6::round = FT_PIX_ROUND, Fixed::floor = FT_FloorFix, Fixed::round vs FT_RoundFix (refuted on negative ties). "
                 "Both models are tied to the real code on every run: skrifa kernels through the verif hooks and FreeType through FFI "
                 "(FT_MulFix/FT_DivFix/FT_MulDiv/FT_RoundFix/FT_CeilFix/FT_FloorFix) on ~65k boundary-dense/random tuples evaluated with vm_compute. "
                 "NOT proved (tested only): everything between the kernels — graphics state, the ~200 opcode bodies, composite assembly, "
                 "the CFF charstring evaluator and stem hinter, the path normalisation; FreeType's unexported Round_*/TT_MulFix14/"
                 "FT_MulDiv_No_Round are tied to their model only by reading the C source. The property itself is checked by an "
-                "implementation-only differential grid: every static font of font-test-data x every glyph x ppem {unscaled, 6..64, 72, 96, 128, "
-                "256, 1000} (thorough: 4..256 + larger) x {unhinted, interpreter x {mono, normal, light, lcd, vertical lcd}} through "
+                "implementation-only differential grid: every static font of font-test-data plus a 577-glyph synthetic font of instruction "
+                "micro-programs (MIAP/MIRP/MDRP/ALIGNRP/ISECT/IP/SHP/DELTA/twilight/CALL/... at, above and below the cut-in thresholds) x every "
+                "glyph x ppem {unscaled, 4..320, 384, 512, 768, 1000, 2048, +-1 around each font's MPPEM comparison constants} (thorough: 2..512 + "
+                "larger) x {unhinted, interpreter x {mono, normal, light, lcd, vertical lcd}} through "
                 "fauntlet's own FreeType/skrifa instances and RegularizingPen, paths and advances compared exactly."),
     level_note=("Trusted: Coq kernel; the two hand-written models in coq/C03/Model.v (agreement with the Rust code and with the exported "
                 "FreeType functions is checked on every run, not proved; the unexported FreeType functions are transcribed by hand from the "
